@@ -32,43 +32,51 @@ TECHNIQUE = (
 
 META = {
     "explanation": (
-        "R1: every construction of a property-listed block node class in the package is followed, on every CFG path to the "
-        "normal exit, by a store of .line and of .source on that node (directly, through a 'stamper' = any package function "
-        "that stores both on its parameter, through a None-guarded parameter whose callers must pass it, or - for returned "
-        "nodes - in every caller); unstamped nodes inherit docutils' stale document.current_line. R2: a small kind inference "
-        "(L1 = 1-based line, P = lines preceding, N = count, OFF = docutils content offset, CH = character index) over "
-        "assignments, parameters (resolved through package call sites, docutils-supplied ones tabled) and attributes: "
-        "(a) a CH value never meets a line value in +/- or a line sink; (b) every call site of nested_render_text / "
-        "run_directive / the eval-rst padding is in a convention table (text starts AFTER the anchor line, ON it, or at "
-        "the START of a file) and its line argument, normalised to sum-of-kinded-terms + constant, has the constant the "
-        "convention requires; (c) a .line sink never receives L1+OFF without the +1. R3: token.map is stored only by "
-        "_render_tokens (+1 both ends, guarded by map only) and nested_render_text (+lineno both ends), each loop completes "
-        "exactly once before rendering, _render_tokens has exactly those two callers on freshly parsed lists, and token "
-        "content is not given extra leading lines while its map stays. R4: the value stored in "
-        "DirectiveParsingResult.body_offset (and any other difference of two line counts) is not computed across a "
-        "'\\n'.join -> splitlines round trip. R5: every store to .source / ['source'] takes a path-kind value and the "
-        "include mock's swap of document['source'] / reporter.source / get_source_and_line is the included file and is "
-        "restored in finally from values saved before the try. R6: in the function that builds DirectiveParsingResult, every "
-        "statement that removes k leading lines from the body list (slice, pop(0), del) has `offset += k` in the same block, and "
-        "putting the directive-line text in front of the body sets the offset to -1 (body[0] then lies before the first content line). "
-        "R7: at START-convention call sites every cut from the head of the text (lines slice, character prefix) is carried additively "
-        "in the line argument, and no plain re-assignment between a cut and the call forgets it. R5 also rejects a .source stamp read "
-        "from a path copy cached on the renderer unless the include mock swaps that copy too."
+        "R1 stamping: every construction of a block node class (paragraph, section, title, rubric, lists, list_item, block_quote, "
+        "literal_block/node_cls, target, footnote, definition/field list parts, table, container, math_block) anywhere in the package is "
+        "followed, on every CFG path through a use of the node to the normal exit, by a store of .line and of .source: directly, through a "
+        "'stamper' (any package function that stores them on its parameter - found by fixpoint, so helpers are followed), through a "
+        "`if p is not None` parameter every caller passes, or - for returned nodes - in every caller (2 levels). Constructor keywords "
+        "line=/source= do not count (docutils stores them as attributes). Constructs inside a private helper with one caller are keyed "
+        "under that caller. R2 kinds (L1 = 1-based line, P = lines preceding, N = count, OFF = docutils content offset, CH = character "
+        "index; parameters resolved through package call sites, docutils-supplied ones tabled): (a) CH never meets a line value in +/-/+= "
+        "or reaches a line sink; (b) every call site of nested_render_text / run_directive (forwarding helpers looked through) and the "
+        "eval-rst newline padding is in a convention table (text starts AFTER the anchor line / ON it / at the START of a file) and its "
+        "line argument, normalised to kinded terms + constant, has the constant the convention needs; AFTER sites inside a function that "
+        "receives a content offset must add it; (c) a .line / get_source_and_line / line= sink never gets L1+OFF without +1; (d) in a "
+        "function that receives a content offset, a line built from the directive line plus an index or constant includes that offset. "
+        "R3 shift-once: token.map is written only by _render_tokens (+1) and nested_render_text (+lineno) or a private helper only they "
+        "call; both ends by the same amount (list, comprehension, any operand order), guarded by the token's map only, the loop (or helper "
+        "call) completes exactly once before the list is handed on, the rendered list is freshly parsed, _render_tokens has exactly its two "
+        "callers, and token content gets no extra leading lines. R4: no +/- of two line counts where one string went through "
+        "'\\n'.join -> splitlines (body_offset and package-wide). R5 source path: every store to .source / ['source'] and every warning "
+        "location (Sphinx location=(source, line), source= of system messages) is path-kind and reads the swappable document path (a copy "
+        "cached on the renderer only if the include mock swaps it too; a docname is not a path); the include mock - in run() or in a "
+        "@contextmanager used around the nested render - swaps document['source'], reporter.source and get_source_and_line to str(path read) "
+        "and restores each in finally from a value saved before the try (tuple assignments split). R6: in the function building "
+        "DirectiveParsingResult (and tuple-returning helpers) each removal of k leading body lines has `offset += k` in the same block and "
+        "putting the directive-line text in front sets the offset to -1. R7: at START-convention sites every cut from the head of the text "
+        "(lines slice, character prefix) is carried additively in the line argument and no plain re-assignment between a cut and the call "
+        "forgets it."
     ),
     "not_decided": (
-        "the numeric truth of each line for all nestings (only unit/base/convention consistency); which token a node is "
-        "stamped from when several tokens are in scope; line constants such as literal_block.line = 1 in the include mock; "
-        "nodes created by third-party directives; front-matter pseudo nodes (outside the quantifier)"
+        "the numeric truth of each line for all nestings (only unit/base/convention/pairing consistency); whether the token a node is "
+        "stamped from carries a map and is the right one when several are in scope (e.g. td tokens have no map); line constants such as "
+        "literal_block.line = 1 in the include mock; nodes created by third-party directives; front-matter pseudo nodes (outside the "
+        "quantifier); third-party state such as a reporter.get_source_and_line left behind by an earlier rST parse beyond the three swapped "
+        "locations; runtime values of option offsets"
     ),
     "trusted_base": [
         "CPython ast",
-        "mystsa call graph (receiver typing for self.* calls)",
-        "convention table NRT_CONVENTION / EXTERNAL_PARAMS (docutils callback contract: lineno is the 1-based line of the text, content_offset counts from the line after the directive line)",
+        "mystsa call graph (receiver typing for self.* calls) and CFG",
+        "tables in the module: BLOCK_CLASSES, NRT_CONVENTION (ON/AFTER/START per call site), EXTERNAL_PARAMS (docutils callback contract: lineno is the 1-based line the text is ON, content_offset counts from the line after the directive line), R1_OUT_OF_SCOPE, ATTACH_ONLY, EXTERNAL_STAMPERS",
         "docutils Element constructors store line=/source= keywords as attributes, not as node.line/node.source",
     ],
     "assumptions": [
-        "markdown-it sets token.map = [first, last+1) 0-based on block tokens",
+        "markdown-it sets token.map = [first, last+1) 0-based on block tokens and returns fresh Token objects from parse()/parseInline()",
         "docutils Node.setup_child fills an unset node.line with document.current_line (so 'unstamped' means stale, not None)",
+        "Sphinx maps a (docname, line) logging location to the path of the document being read, not to an included file",
+        "flow-insensitive kinds: a local name is not reused for a character index and a line count",
     ],
 }
 
@@ -93,6 +101,20 @@ def _real_callers(corpus: Corpus, target: FunctionInfo) -> list[tuple[FunctionIn
         if nm == target.name or (target.name == "__init__" and target.cls is not None and nm == target.cls.name):
             out.append((fi, call))
     return out
+
+
+def _key_owner(corpus: Corpus, fi: FunctionInfo) -> FunctionInfo:
+    """Function a construct is keyed under: a private helper with a single calling function is keyed under
+    that caller (transitively), so that extracting a block into ``_helper()`` keeps the construct's identity."""
+    cur = fi
+    for _ in range(3):
+        if not cur.name.startswith("_") or cur.name.startswith("__"):
+            break
+        callers = {c.fq: c for c, _call in _real_callers(corpus, cur) if c.fq != cur.fq}
+        if len(callers) != 1:
+            break
+        cur = next(iter(callers.values()))
+    return cur
 
 
 def _shift(target: FunctionInfo) -> int:
@@ -487,8 +509,8 @@ def r1_stamping(corpus: Corpus, rep: Report, tier: str):
         rep.ok(R1, k, alsp.site(), "line = token_line(<token parameter>), source = document path")
     else:
         rep.violation(R1, k, alsp.site(), f"add_line_and_source_path no longer stores both .line (from token_line of its token) and .source on its node parameter (stores: {sorted(got)})")
+    seen_keys: dict[str, int] = {}
     for fi in _funcs(corpus):
-        seen_keys: dict[str, int] = {}
         ctor_calls = [n for n in fi.local_nodes() if isinstance(n, ast.Call)]
         ctor_calls.sort(key=lambda c: (c.lineno, c.col_offset))
         for call in ctor_calls:
@@ -501,7 +523,7 @@ def r1_stamping(corpus: Corpus, rep: Report, tier: str):
             while isinstance(p, ast.IfExp) and top is not p.test:  # x = nodes.A() if c else nodes.B()
                 top, p = p, parent(p)
             var = p.targets[0].id if isinstance(p, ast.Assign) and len(p.targets) == 1 and isinstance(p.targets[0], ast.Name) and p.value is top else None
-            base = f"{fi.fq}|{var or 'inline'} = nodes.{cls}"
+            base = f"{_key_owner(corpus, fi).fq}|{var or 'inline'} = nodes.{cls}"
             seen_keys[base] = seen_keys.get(base, 0) + 1
             k = base if seen_keys[base] == 1 else f"{base}#{seen_keys[base]}"
             site = fi.module.site(call)
@@ -979,6 +1001,9 @@ def r2_line_kinds(corpus: Corpus, rep: Report, tier: str):
                 rep.error(R2, f"{site}: line argument `{short(arg, 50)}` of {sink.name}() not understood ({e})")
                 continue
             shape = " + ".join(f"{kk}({t})" for _, kk, t in terms) + (f" {const:+d}" if const or not terms else "")
+            off_params = [pn for (fq_, pn), (kd, _r) in EXTERNAL_PARAMS.items() if fq_ == cfi.fq and kd == OFF]
+            if verdict is None and conv == AFTER and off_params and not any(kk == OFF for _, kk, _t in terms):
+                verdict = f"the block handed to {cfi.name}() starts `{off_params[0]}` lines after the line following the directive line, but `{off_params[0]}` is not added: every nested line is reported too low whenever the offset is not 0"
             if verdict is None:
                 rep.ok(R2, k, site, f"{conv}: {shape} ({why})")
             else:
@@ -1031,6 +1056,48 @@ def r2_line_kinds(corpus: Corpus, rep: Report, tier: str):
                     rep.violation(R2, k, fi.module.site(e), f"`{short(e, 50)}` = L1(directive line) + content offset {const:+d} is the number of lines BEFORE the target line; as a node/warning line it is one too low (docutils: lineno = 1 + line_offset)")
                 else:
                     rep.ok(R2, k, fi.module.site(e), " + ".join(kinds) + (f" {const:+d}" if const else ""))
+    # ---- (d) in a function that receives a docutils content offset, a position inside the block (anchor + index / + 1) includes it
+    g = get_callgraph(corpus)
+    for fi in r2_funcs:
+        off_params = [pn for (fq_, pn), (kd, _r) in EXTERNAL_PARAMS.items() if fq_ == fi.fq and kd == OFF]
+        if not off_params:
+            continue
+        cands: list[ast.expr] = []
+        for n in fi.local_nodes():
+            if isinstance(n, ast.Assign) and any(isinstance(t, ast.Attribute) and t.attr == "line" for t in _store_targets(n)):
+                if isinstance(n.value, ast.Call) and isinstance(n.value.func, ast.Attribute) and n.value.func.attr == "get_source_and_line" and n.value.args:
+                    cands.append(n.value.args[0])
+                elif len(n.targets) == 1 and isinstance(n.targets[0], ast.Attribute):
+                    cands.append(n.value)
+            elif isinstance(n, ast.Call):
+                if kwarg(n, "line") is not None:
+                    cands.append(kwarg(n, "line"))
+                for t in g.resolve_call(n, fi):
+                    if isinstance(t, FunctionInfo):
+                        for pn in t.params:
+                            ext = EXTERNAL_PARAMS.get((t.fq, pn))
+                            if (ext and ext[0] == L1) or (t.fq in LINE_SINKS and LINE_SINKS[t.fq][1] == pn):
+                                a = _arg_for(n, t, pn)
+                                if a is not None and a not in cands:
+                                    cands.append(a)
+        done: set[str] = set()
+        for e in cands:
+            try:
+                terms, const = K.linear(e, fi)
+            except _Unknown:
+                continue
+            if not any(kk == L1 and s_ > 0 for s_, kk, _t in terms):
+                continue
+            others = [t for _s, kk, t in terms if kk not in (L1, OFF)]
+            norm = " + ".join(sorted(f"{kk}({t})" for _s, kk, t in terms)) + f" {const:+d}"
+            if norm in done:
+                continue
+            done.add(norm)
+            k = uniq(f"{fi.fq}|content offset|{norm}")
+            if any(kk == OFF for _s, kk, _t in terms):
+                rep.ok(R2, k, fi.module.site(e), f"includes the content offset `{off_params[0]}`")
+            elif others or const != 0:
+                rep.violation(R2, k, fi.module.site(e), f"`{short(e, 50)}` = {norm} locates something inside the block {fi.name}() was given, but the block's content offset `{off_params[0]}` is not added: the line is too low whenever the body does not start right after the directive line (blank line / option block before it)")
     rep.expect_min(R2, 20, "line arithmetic, convention call sites and line sinks with a known kind")
 
 
@@ -1466,6 +1533,8 @@ def _path_kind(e: ast.expr | None, fi: FunctionInfo, corpus: Corpus, depth: int 
             return "path"
         if e.attr in ("content", "rawsource", "info", "markup"):
             return "nonpath"
+        if e.attr == "docname":
+            return "nonpath"  # a Sphinx document name: resolved by Sphinx to the *including* document, never to an included file
         if isinstance(e.value, ast.Name) and e.value.id == "self":
             # an attribute of the object itself: judged by what its class stores there
             f = fi
@@ -1490,7 +1559,7 @@ def _path_kind(e: ast.expr | None, fi: FunctionInfo, corpus: Corpus, depth: int 
         d = dotted(e.func) or ""
         if d == "str" and len(e.args) == 1:
             a = e.args[0]
-            if isinstance(a, ast.Name) and _is_path_var(a.id, fi):
+            if isinstance(a, ast.Name) and _is_path_var(a.id, fi, corpus):
                 return "path"
             return "nonpath" if _path_kind(a, fi, corpus, depth + 1) != "path" else "path"
         if isinstance(e.func, ast.Attribute) and e.func.attr in ("get_source_and_line", "get_source_line", "get_source"):
@@ -1520,7 +1589,20 @@ def _path_kind(e: ast.expr | None, fi: FunctionInfo, corpus: Corpus, depth: int 
             if how == "assign" and v is not None and not (isinstance(v, ast.Name) and v.id == e.id):
                 kinds.add(_path_kind(v, fi, corpus, depth + 1))
             elif how in ("loop", "other"):
-                kinds.add("loopvar")
+                st_ = _
+                tup = st_.targets[0] if isinstance(st_, ast.Assign) and isinstance(st_.targets[0], (ast.Tuple, ast.List)) else None
+                if (
+                    tup is not None
+                    and isinstance(st_.value, ast.Call)
+                    and isinstance(st_.value.func, ast.Attribute)
+                    and st_.value.func.attr in ("get_source_and_line", "get_source_line")
+                    and tup.elts
+                    and isinstance(tup.elts[0], ast.Name)
+                    and tup.elts[0].id == e.id
+                ):
+                    kinds.add("path")  # (source, line) = get_source_line(node)
+                else:
+                    kinds.add("loopvar")
         if owner is not None:
             callers = _real_callers(corpus, owner)
             for cfi, call in callers:
@@ -1539,8 +1621,8 @@ def _path_kind(e: ast.expr | None, fi: FunctionInfo, corpus: Corpus, depth: int 
         cached = {k_ for k_ in kinds if k_.startswith("cached:")}
         if len(cached) == 1 and kinds <= {"path"} | cached:
             return next(iter(cached))
-        if "nonpath" in kinds and "path" not in kinds and not cached:
-            return "nonpath"
+        if "nonpath" in kinds and (kinds <= {"nonpath", "path"} | cached or ("path" not in kinds and not cached)):
+            return "nonpath"  # at least one definition that reaches the use is not a path
         return "unknown"
     return "unknown"
 
@@ -1556,11 +1638,49 @@ def _assign_pairs(n: ast.AST):
             yield t, n.value
 
 
+def _include_region(corpus: Corpus) -> dict | None:
+    """The try/finally that brackets the include mock's nested render: directly in run(), or in a
+    @contextmanager method used as ``with self.cm(...):`` around the call (the ``yield`` is the render point)."""
+
+    def build():
+        run = corpus.func(INCLUDE_RUN)
+        calls = [n for n in run.local_nodes() if isinstance(n, ast.Call) and isinstance(n.func, ast.Attribute) and n.func.attr == "nested_render_text"]
+        if len(calls) != 1:
+            return {"run": run, "calls": len(calls)}
+        call = calls[0]
+        readers = {n.func.value.id for n in run.local_nodes() if isinstance(n, ast.Call) and isinstance(n.func, ast.Attribute) and n.func.attr == "read_text" and isinstance(n.func.value, ast.Name)}
+        out = {"run": run, "calls": 1, "call": call, "host": run, "tr": None, "render": call, "readers": readers}
+        tr = next((a for a in ancestors(call) if isinstance(a, ast.Try) and a.finalbody and any(call in ast.walk(s_) for s_ in a.body)), None)
+        if tr is not None:
+            out["tr"] = tr
+            return out
+        g = get_callgraph(corpus)
+        for a in ancestors(call):
+            if not isinstance(a, ast.With):
+                continue
+            for item in a.items:
+                ce = item.context_expr
+                if not isinstance(ce, ast.Call):
+                    continue
+                for t in g.resolve_call(ce, run):
+                    if isinstance(t, FunctionInfo) and any(d.split(".")[-1] == "contextmanager" for d in t.decorators()):
+                        ys = [n for n in t.local_nodes() if isinstance(n, ast.Yield)]
+                        trs = [n for n in t.local_nodes() if isinstance(n, ast.Try) and n.finalbody and any(y in ast.walk(s_) for s_ in n.body for y in ys)]
+                        if len(ys) == 1 and len(trs) == 1:
+                            mapped = {p_ for p_ in t.params if isinstance(_arg_for(ce, t, p_), ast.Name) and _arg_for(ce, t, p_).id in readers}
+                            mapped |= {n.func.value.id for n in t.local_nodes() if isinstance(n, ast.Call) and isinstance(n.func, ast.Attribute) and n.func.attr == "read_text" and isinstance(n.func.value, ast.Name)}
+                            out.update(host=t, tr=trs[0], render=ys[0], readers=mapped)
+                            return out
+        return out
+
+    return corpus.cache("c04-include-region", build)
+
+
 def _mock_swapped_renderer_attrs(corpus: Corpus) -> set[str]:
     """Attributes of the renderer the include mock assigns inside the try around its nested render."""
-    run = corpus.func(INCLUDE_RUN)
+    reg = _include_region(corpus)
     out: set[str] = set()
-    for tr in [n for n in run.local_nodes() if isinstance(n, ast.Try) and n.finalbody and "nested_render_text" in unparse(n)]:
+    for tr in [reg["tr"]] if reg and reg.get("tr") is not None else []:
         for s_ in tr.body:
             for n in ast.walk(s_):
                 for t, _tv in _assign_pairs(n):
@@ -1569,7 +1689,16 @@ def _mock_swapped_renderer_attrs(corpus: Corpus) -> set[str]:
     return out
 
 
-def _is_path_var(name: str, fi: FunctionInfo) -> bool:
+def _is_path_var(name: str, fi: FunctionInfo, corpus: Corpus | None = None, depth: int = 0) -> bool:
+    owner = _owner_of_param(fi, name)
+    if owner is not None and not _defs(fi, name):
+        for a in owner.node.args.posonlyargs + owner.node.args.args + owner.node.args.kwonlyargs:
+            if a.arg == name and a.annotation is not None and "Path" in unparse(a.annotation):
+                return True
+        if corpus is not None and depth < 3:
+            callers = _real_callers(corpus, owner)
+            if callers and all(isinstance(_arg_for(c, owner, name), ast.Name) and _is_path_var(_arg_for(c, owner, name).id, cf, corpus, depth + 1) for cf, c in callers):
+                return True
     for n in fi.local_nodes():
         if isinstance(n, ast.Call) and isinstance(n.func, ast.Attribute) and n.func.attr in ("read_text", "read_bytes", "open") and isinstance(n.func.value, ast.Name) and n.func.value.id == name:
             return True
@@ -1624,19 +1753,53 @@ def r5_source_path(corpus: Corpus, rep: Report, tier: str):
                     rep.violation(R5, k, site, f"`{short(n, 70)}` stores a value that is not a source path (it derives from document text) in a node's source: warnings located at this node name the text instead of the file")
                 else:
                     rep.error(R5, f"{site}: cannot tell whether `{short(v, 50)}` stored into {unparse(t)} is a source path")
+    # warning locations: Sphinx `location=(source, line)` tuples and `source=` of system messages read the swappable document path
+    for fi in _funcs(corpus):
+        for n in sorted((x for x in fi.local_nodes() if isinstance(x, ast.keyword) and x.arg in ("location", "source")), key=lambda x: (x.value.lineno, x.value.col_offset)):
+            callee = parent(n)
+            if not isinstance(callee, ast.Call):
+                continue
+            alts = [n.value]
+            for _round in range(4):  # conditional expressions and locals with one definition are looked through
+                nxt = []
+                for a in alts:
+                    if isinstance(a, ast.IfExp):
+                        nxt += [a.body, a.orelse]
+                    elif isinstance(a, ast.Name) and n.arg == "location" and _owner_of_param(fi, a.id) is None and len(_defs(fi, a.id)) >= 1 and all(h == "assign" and v_ is not None for _s, v_, h in _defs(fi, a.id)):
+                        nxt += [v_ for _s, v_, _h in _defs(fi, a.id)]
+                    else:
+                        nxt.append(a)
+                if len(nxt) == len(alts) and all(x is y for x, y in zip(nxt, alts)):
+                    break
+                alts = nxt
+            if n.arg == "location":
+                alts = [a.elts[0] for a in alts if isinstance(a, ast.Tuple) and a.elts]  # a node object carries its own source
+            elif not (_is_reporter_call(callee) or fi.module.resolve(dotted(callee.func) or "").endswith("docutils.nodes.system_message")):
+                continue
+            for a in alts:
+                k0 = f"{fi.fq}|{short(callee.func, 30)}({n.arg}={short(a, 40)})"
+                seen[k0] = seen.get(k0, 0) + 1
+                k = k0 if seen[k0] == 1 else f"{k0}#{seen[k0]}"
+                site = fi.module.site(a)
+                pk = _path_kind(a, fi, corpus)
+                if pk == "path" or (pk.startswith("cached:") and pk.split(":", 1)[1] in _mock_swapped_renderer_attrs(corpus)):
+                    rep.ok(R5, k, site, "warning located at the (swappable) document path")
+                elif pk == "nonpath" or pk.startswith("cached:"):
+                    rep.violation(R5, k, site, f"the warning is located with `{short(a, 40)}`, which is not the document's current source path (document['source']): inside an included file the warning is attributed to the including document (a docname is mapped by Sphinx to the document being read)")
+                else:
+                    rep.error(R5, f"{site}: cannot tell whether the warning location `{short(a, 40)}` is the document's source path")
     # include mock: swap and restore
-    run = corpus.func(INCLUDE_RUN)
-    calls = [n for n in run.local_nodes() if isinstance(n, ast.Call) and isinstance(n.func, ast.Attribute) and n.func.attr == "nested_render_text"]
-    if len(calls) != 1:
-        rep.error(R5, f"MockIncludeDirective.run: expected one nested_render_text call, found {len(calls)}")
+    reg = _include_region(corpus)
+    run = reg["run"]
+    if reg["calls"] != 1:
+        rep.error(R5, f"MockIncludeDirective.run: expected one nested_render_text call, found {reg['calls']}")
         return
-    call = calls[0]
-    tr = next((a for a in ancestors(call) if isinstance(a, ast.Try) and a.finalbody and any(call in ast.walk(s) for s in a.body)), None)
+    call, tr, host, render = reg["call"], reg["tr"], reg["host"], reg["render"]
     site = run.module.site(call)
     if tr is None:
         rep.violation(R5, f"{run.fq}|nested render inside try/finally", site, "the included text is rendered outside a try/finally: an exception leaves document['source'] pointing at the included file")
         return
-    readers = [n.func.value.id for n in run.local_nodes() if isinstance(n, ast.Call) and isinstance(n.func, ast.Attribute) and n.func.attr == "read_text" and isinstance(n.func.value, ast.Name)]
+    readers = sorted(reg["readers"])
     swapped: dict[str, tuple[ast.Assign, ast.expr]] = {}
     for s in tr.body:
         for n in ast.walk(s):
@@ -1646,8 +1809,8 @@ def r5_source_path(corpus: Corpus, rep: Report, tier: str):
                     cache_swap = isinstance(t, ast.Attribute) and unparse(t.value).endswith("renderer") and isinstance(tv, ast.Call) and dotted(tv.func) == "str"
                     if ut.endswith(("['source']", ".source", ".get_source_and_line")) or cache_swap:
                         swapped[ut] = (n, tv)
-                        if n.lineno > call.lineno:
-                            rep.violation(R5, f"{run.fq}|swap precedes render|{ut}", run.module.site(n), f"{ut} is swapped after the nested render")
+                        if n.lineno > render.lineno:
+                            rep.violation(R5, f"{run.fq}|swap precedes render|{ut}", host.module.site(n), f"{ut} is swapped after the nested render")
     need = all(any(u.endswith(sfx) for u in swapped) for sfx in ("document['source']", "reporter.source", ".get_source_and_line"))
     if not need:
         rep.violation(R5, f"{run.fq}|swaps document source, reporter source and get_source_and_line", site, f"the include mock swaps only {sorted(swapped)}: nodes/warnings of the included file would carry the including file's path")
@@ -1656,8 +1819,8 @@ def r5_source_path(corpus: Corpus, rep: Report, tier: str):
         if isinstance(v, ast.Lambda) and isinstance(v.body, ast.Tuple) and v.body.elts:
             v = v.body.elts[0]
         if isinstance(v, ast.Name):  # hoisted: inc = str(path)
-            one = [d for _, d, how in _defs(run, v.id) if how == "assign" and d is not None]
-            if len(one) == 1 and len(_defs(run, v.id)) == 1:
+            one = [d for _, d, how in _defs(host, v.id) if how == "assign" and d is not None]
+            if len(one) == 1 and len(_defs(host, v.id)) == 1:
                 v = one[0]
         is_inc = isinstance(v, ast.Call) and dotted(v.func) == "str" and len(v.args) == 1 and isinstance(v.args[0], ast.Name) and v.args[0].id in readers
         if is_inc:
@@ -1675,7 +1838,7 @@ def r5_source_path(corpus: Corpus, rep: Report, tier: str):
         if restored is None or not isinstance(rvalue, ast.Name):
             rep.violation(R5, k, run.module.site(tr), f"{ut} is not restored in the finally block: everything after the include directive reports the included file as its source")
             continue
-        saved = [(m, tv) for m in run.local_nodes() for t, tv in _assign_pairs(m) if isinstance(t, ast.Name) and t.id == rvalue.id]
+        saved = [(m, tv) for m in host.local_nodes() for t, tv in _assign_pairs(m) if isinstance(t, ast.Name) and t.id == rvalue.id]
         ok = len(saved) == 1 and saved[0][0].lineno < tr.lineno and (
             unparse(saved[0][1]) == ut or (isinstance(saved[0][1], ast.Call) and dotted(saved[0][1].func) == "getattr" and ut.endswith("." + str(getattr(saved[0][1].args[1], "value", ""))) and unparse(saved[0][1].args[0]) == ut.rsplit(".", 1)[0])
         )
@@ -1816,6 +1979,7 @@ def r6_body_offset_pairing(corpus: Corpus, rep: Report, tier: str):
 def _judge_pairing(corpus: Corpus, rep: Report, fi: FunctionInfo, B: str, O: str, depth: int) -> None:
     """Pair the head edits of list ``B`` with the moves of offset ``O`` inside ``fi`` (helpers that take and return both are followed)."""
     g = get_callgraph(corpus)
+    ko = _key_owner(corpus, fi).fq
     if True:
         if True:
             # `B, O = helper(B, O, ...)`: the pairing is judged inside the helper
@@ -1864,7 +2028,7 @@ def _judge_pairing(corpus: Corpus, rep: Report, fi: FunctionInfo, B: str, O: str
                     continue
                 if kind == "drop":
                     advs = [(s2, a2) for s2, k2, a2 in sibs if k2 == "adv"]
-                    k = f"{fi.fq}|{short(st, 50)} ~ {short(advs[0][0], 40) if advs else 'no offset update in the same block'}"
+                    k = f"{ko}|{short(st, 50)} ~ {short(advs[0][0], 40) if advs else 'no offset update in the same block'}"
                     if len(advs) == 1 and advs[0][1] == amt and not any(k2 == "set" for _, k2, _ in sibs):
                         rep.ok(R6, k, site, f"{amt} leading line(s) removed, offset advanced by {advs[0][1]}")
                         reported_o.add(id(advs[0][0]))
@@ -1881,14 +2045,14 @@ def _judge_pairing(corpus: Corpus, rep: Report, fi: FunctionInfo, B: str, O: str
                             for s2, _a in outer:
                                 reported_o.add(id(s2))
                             how = "inside a loop (any number of lines)" if loops else "in a nested branch"
-                            rep.violation(R6, f"{fi.fq}|{short(st, 50)} ~ {short(outer[0][0], 40)} outside its block", site, f"`{short(st, 50)}` removes leading body lines {how} while `{short(outer[0][0], 40)}` runs once outside it: with more lines removed than counted, every nested line is reported too low")
+                            rep.violation(R6, f"{ko}|{short(st, 50)} ~ {short(outer[0][0], 40)} outside its block", site, f"`{short(st, 50)}` removes leading body lines {how} while `{short(outer[0][0], 40)}` runs once outside it: with more lines removed than counted, every nested line is reported too low")
                         else:
                             rep.violation(R6, k, site, f"`{short(st, 50)}` removes {amt} leading body line(s) and body_offset is not advanced: every nested line is reported {amt} too low")
                 elif kind == "prepend":
                     sets = [(s2, a2) for s2, k2, a2 in sibs if k2 == "set"]
                     advs = [(s2, a2) for s2, k2, a2 in sibs if k2 == "adv"]
                     partner = (sets or advs or [(None, None)])[0]
-                    k = f"{fi.fq}|{short(st, 50)} ~ {short(partner[0], 40) if partner[0] is not None else 'no offset update in the same block'}"
+                    k = f"{ko}|{short(st, 50)} ~ {short(partner[0], 40) if partner[0] is not None else 'no offset update in the same block'}"
                     for s2, _a in sets + advs:
                         reported_o.add(id(s2))
                     want = -int(amt)
@@ -1907,7 +2071,7 @@ def _judge_pairing(corpus: Corpus, rep: Report, fi: FunctionInfo, B: str, O: str
                 sib_b = by_list_b.get(lk, [])
                 if kind == "set" and any(k2 == "init" for _, k2, _ in sib_b):
                     continue  # initialisation next to the initial split of the content
-                k = f"{fi.fq}|{short(st, 50)} ~ no change of the body head in the same block"
+                k = f"{ko}|{short(st, 50)} ~ no change of the body head in the same block"
                 if kind == "adv":
                     rep.violation(R6, k, fi.module.site(st), f"`{short(st, 50)}` moves body_offset although no leading line is removed from `{B}` in the same block")
                 else:
@@ -2246,6 +2410,29 @@ def mutants(corpus: Corpus):
         ind_ = " " * anchor.col_offset
         src2 = splice(src2, anchor, ast.get_source_segment(base.src, anchor) + f'\n{ind_}self._source_path = self.document["source"]')
         out.append(Mutant(mid, R5, base.rel, src2, expect=exp))
+
+    # warning locations must be the swappable document path
+    wm = corpus.mod("warnings_")
+    cw = wm.func("create_warning")
+    loc = find_node(cw, lambda n: isinstance(n, ast.keyword) and n.arg == "location")
+    tup = next((x for x in ast.walk(loc.value) if isinstance(x, ast.Tuple)), None) if loc is not None else None
+    add("c04-sphinx-location-by-docname", R5, wm, tup.elts[0] if tup is not None and tup.elts else None, "document.settings.env.docname", "location=", canary=False)
+    st = find_stmt(cw, lambda s: isinstance(s, ast.Assign) and isinstance(s.targets[0], ast.Tuple) and isinstance(s.value, ast.Tuple) and unparse(s.targets[0].elts[0]) == "_source")
+    add("c04-warning-node-source-by-docname", R5, wm, st.value.elts[0] if st is not None else None, "document.settings.env.docname", "source=")
+
+    # ---- R2 (d): positions inside a block include its content offset
+    f = mk.func("MockState.block_quote")
+    st = find_stmt(f, lambda s: isinstance(s, ast.Assign) and unparse(s.targets[0]) == "lineno")
+    if st is not None and " + line_offset" in unparse(st.value):
+        add("c04-attribution-line-drops-content-offset", R2, mk, st.value, unparse(st.value).replace(" + line_offset", "", 1), "content offset", canary=True)
+    else:
+        out.append(("c04-attribution-line-drops-content-offset", "attribution line no longer written as a sum with line_offset"))
+    c = find_node(f, lambda n: isinstance(n, ast.Call) and isinstance(n.func, ast.Attribute) and n.func.attr == "get_source_and_line" and n.args and " + line_offset" in unparse(n.args[0]))
+    add("c04-blockquote-line-drops-content-offset", R2, mk, c.args[0] if c is not None else None, unparse(c.args[0]).replace(" + line_offset", "", 1) if c is not None else "", "content offset")
+    f = mk.func("MockState.nested_parse")
+    c = _nrt_call(f)
+    a = arg_or_kw(c, 1, "lineno") if c else None
+    add("c04-nested-parse-drops-input-offset", R2, mk, a, "self._lineno", "nested_parse")
 
     # ---- R7
     f = mk.func("MockIncludeDirective.run")
